@@ -253,7 +253,10 @@ def main():
     if prop not in TIERS:
         log('unknown property', prop)
         return 2
-    cfg = TIERS[prop][tier]
+    cfg = dict(TIERS[prop][tier])
+    if os.environ.get('VERIF_MUTANT'):
+        # sensitivity runs against a deliberately broken scratch copy: a short minimisation is enough
+        cfg['min_runs'], cfg['min_seconds'] = 40, 20
     variants = VARIANTS.get(prop, ['asan'])
     t_start = time.time()
     bins = {v: build(v) for v in variants}
@@ -276,7 +279,7 @@ def main():
         return 2
 
     seed_base = int(os.environ.get('VERIF_SEED', '0'))
-    outdir = os.path.join(VERIF, 'out', prop)
+    outdir = os.path.join(os.environ.get('VERIF_OUT_DIR', os.path.join(VERIF, 'out')), prop)
     shutil.rmtree(outdir, ignore_errors=True)
     os.makedirs(outdir, exist_ok=True)
     known = load_known()
@@ -573,8 +576,9 @@ def main():
         'wall_s': round(wall, 2),
         'violations': len(violations),
     }
-    os.makedirs(os.path.join(VERIF, 'evidence'), exist_ok=True)
-    json.dump(ev, open(os.path.join(VERIF, 'evidence', prop + '.json'), 'w'), indent=1)
+    evdir = os.environ.get('VERIF_EVIDENCE_DIR', os.path.join(VERIF, 'evidence'))
+    os.makedirs(evdir, exist_ok=True)
+    json.dump(ev, open(os.path.join(evdir, prop + '.json'), 'w'), indent=1)
     log('%s %s: %d runs (%d non-trivial, %d distinct), %.0f simulated s, %.1f s wall, faults fired: %s' % (
         prop, tier, merged['evaluations'], merged['nontrivial'], len(distinct), merged['sim_us'] / 1e6, wall,
         json.dumps(dict(merged['faults_fired'], **{('file:' + k): v for k, v in merged['file_faults_fired'].items() if v}))))
